@@ -105,7 +105,9 @@ def handleSplit : List String → Option String
     match globSplit f isBytes pat with
     | .error e => pure (encErr e)
     | .ok parts =>
-      let f' := (SplitCfg.ofFlags f isBytes).flags
+      -- the text of a compiled part is rendered from the flags `store` hands to the part compiler
+      -- (`partFlags`: MATCHBASE / `_EXTMATCHBASE` cleared, fix G6)
+      let f' := (SplitCfg.ofFlags f isBytes).partFlags
       pure (" ".intercalate ("ok" :: parts.map (encPart f' isBytes)))
   | _ => none
 
